@@ -1,0 +1,22 @@
+//go:build verif
+
+package ipmi
+
+import (
+	"github.com/gebn/bmc/internal/pkg/bcd"
+	"github.com/gebn/bmc/internal/pkg/complement"
+)
+
+// Export shims for the verification harness (add-only, compiled only with -tags verif).
+
+func VerifChecksum(b []byte) uint8                            { return checksum(b) }
+func VerifBCDDecode(b byte) uint8                             { return bcd.Decode(b) }
+func VerifOnes(b byte) int8                                   { return complement.Ones(b) }
+func VerifTwos(be [2]byte, bits uint8) int16                  { return complement.Twos(be, bits) }
+func VerifDecodeBCDPlus(b []byte, c int) (string, int, error) { return decodeBCDPlus(b, c) }
+func VerifDecodePacked6BitAscii(b []byte, c int) (string, int, error) {
+	return decodePacked6BitAscii(b, c)
+}
+func VerifDecode8BitAsciiLatin1(b []byte, c int) (string, int, error) {
+	return decode8BitAsciiLatin1(b, c)
+}
